@@ -94,7 +94,7 @@ inline std::vector<Case> all_cases(bool thorough)
     {
         std::vector<Stmt> al = { stmt(1, false, 'A', { I_LIT }, 0),        stmt(3, true, 'B', { I_CALLB, I_INT }, 0), stmt(5, false, 'A', { I_HEX, I_INT, I_MARK }, 0),
                                  stmt(2, false, 'B', { I_NEST }, 0),       stmt(4, true, 'A', { I_CALLA }, 0),         stmt(0, false, 'B', { I_STR }, 0),
-                                 stmt(5, false, 'B', { I_INT, I_DBL }, 0) };
+                                 stmt(5, false, 'B', { I_INT, I_DBL }, 0), stmt(1, true, 'A', { I_LIT }, 0) };
         for (int t0 : { 0, 3 })
             for (int len = 1; len <= 3; len++)
             {
@@ -112,6 +112,12 @@ inline std::vector<Case> all_cases(bool thorough)
                         c.prog.push_back(s);
                     }
                     cs.push_back(c);
+                    if (len <= 2)
+                    {
+                        Case u = c; // the same program, run from a destructor during stack unwinding
+                        u.mode = 3;
+                        cs.push_back(u);
+                    }
                     int p = len - 1;
                     while (p >= 0 && ++ix[p] == al.size())
                         ix[p--] = 0;
@@ -214,7 +220,7 @@ inline int log_main(int argc, char** argv, const char* owner)
     rep.counters["cases_total"] = cs.size();
     rep.notes["rule"] = "generated log programs per compile-time minimum: 14 filter expressions x threshold grids x 6 severities x tag/no tag x both "
                         "forms; threshold changes between statements; every item tuple of length <= 3 over 9 item kinds; every sequence of <= 3 "
-                        "statements over 7; two overlapping named streams; non-trivial = cases with at least one enabled statement";
+                        "statements over 8 (also run from a destructor during stack unwinding); two overlapping named streams; non-trivial = cases with at least one enabled statement";
     mc::write_out(a, rep);
     return 0;
 }
